@@ -1497,13 +1497,18 @@ func c06Enumerate(thorough bool, visit func(family string, cfg *c06Config) bool)
 			}
 		}
 	}
-	// Family A again (thorough, last): the same product with codecs and compressions left to their defaults.
+	// Family A again (thorough, last): the same product with codecs and compressions left
+	// to their defaults (results four times as large), over the 8 stream-type subsets of
+	// {unary, half, full}.
 	if thorough {
 		for fi := 0; fi < 2187; fi++ {
 			flags := c06FlagsFromIndex(fi)
 			for vs := 0; vs < 8; vs++ {
 				for ps := 0; ps < 8; ps++ {
 					for _, ss := range streamSubsets {
+						if ss&^(1<<0|1<<(c06Half-1)|1<<(c06Full-1)) != 0 {
+							continue
+						}
 						cfg := c06Config{Versions: vs, Protocols: ps, StreamTypes: ss, Flags: flags}
 						if !visit("A-features-default-codecs", &cfg) {
 							return
